@@ -306,8 +306,8 @@ _EXTRA = {
     'R24': (['C10', 'C11'], 'R24: in the tool the variables are renamed after the tree was rearranged (pipeline order).'),
     'R25': (['C11'], 'R25: --reify-edges and --dereify-edges each guard exactly their own step (both may be given).'),
     'R5': (['C14', 'C20'], 'R5: interpretation turns an inverted triple round through Model.deinvert only (the no-op model overrides exactly that method).'),
-    'R11': (['C14'], 'R11: a variable reference is compared with the variable set after its alignment suffix was split off.'),
-    'R32': (['C14'], 'R32: a value that is cast to Variable was tested to be one.'),
+    'R11': (['C14', 'C05', 'C12'], 'R11: a variable reference is compared with the variable set after its alignment suffix was split off.'),
+    'R32': (['C14', 'C04'], 'R32: a value that is cast to Variable was tested to be one.'),
     'R90': (['C14'], 'R90: branch targets are taken apart only under the is_atomic test.'),
     'R73': (['C19', 'C14'], 'R73: optional context (a flag, a token) that a function holds under the same name as its callee\'s parameter is passed on.'),
     'R109': (['C01', 'C02', 'C03', 'C04', 'C05', 'C07', 'C08', 'C09', 'C10', 'C11', 'C12', 'C13', 'C14', 'C15', 'C16', 'C17', 'C18', 'C19', 'C20'],
@@ -371,9 +371,25 @@ _EXTRA = {
              'R128: AlignmentMarker.__eq__ is read (it does not compare classes); given that, no ==, in / not in, list.remove/index/count is applied to a marker taken from an epidata '
              'list in transform, layout, surface, graph or __main__ - markers are classified with isinstance or .mode only.'),
     'R48': (['C19'], 'R48 (sibling): a memo or cache is keyed by everything its stored result depends on (a result that also depends on a flag is not stored under the text alone).'),
+    'R130': (['C15', 'C17'],
+             'R130: in Graph.__ior__ the markers of the right operand are taken over for every added triple: by epidata.update(other.epidata), or by a copying loop whose range is '
+             'other.triples / the list of added triples; a range computed from the size of a set of new triples is reported.'),
+    'R131': (['C17'],
+             'R131: no attribute of a library class (Model, Graph, Tree, PENMANCodec, the markers, ...) is bound to a value of a kind that cannot be pickled or deep-copied '
+             '(mappingproxy, lambda, generator, iterator, nested function, lock, open file): the result of a call must not depend on whether it runs in a worker process.'),
+    'R132': (['C03', 'C01', 'C02', 'C20'],
+             'R132: in _format_edge the target of the edge is re-bound only to "" (missing target), to the text of a nested node, or not at all; a numeric or string conversion '
+             'applied to it (int, float, round, lower, strip, ...) is reported.'),
+    'R133': (['C02', 'C04', 'C11', 'C20'],
+             'R133: in _configure_node the marker list unpacked from a datum is neither filtered, sliced nor emptied before it becomes part of the branch tuple.'),
+    'R51': (['C20'], 'R51 (sibling): the end of a quoted string with an alignment is found from the right (the last quote), so escaped quotes inside the string are not taken for its end.'),
+    'R19': (['C03', 'C12'], 'R19 (sibling): parse / iterparse accept exactly the documented token-kind language (a target-less role before ")" and an aligned string concept included) - what encode writes must be readable.'),
+    'R129': (['C08', 'C09', 'C01', 'C07'],
+             'R129: in lex() every re-binding of the lines argument that can apply to non-string input keeps the items: no str.join of the items, no filter, no '
+             '`split(...)[0]` / `partition(...)[0]` of an item.'),
     'R108': (['C03', 'C05', 'C12', 'C20'], 'R108: in configure no path leads from the _find_next call back to the loop head without the list of passed-over data having been used.'),
     'R87': (['C20', 'C17'], 'R87: the option tables main() builds once are only read by process/_process_in/_process_out (alias-following over what is unpacked from them).'),
-    'R86': (['C01', 'C07', 'C08', 'C09', 'C19', 'C20'], 'R86: an argument annotated as Iterable / Iterator / file is walked at most once on every path (a second walk of a file or generator finds nothing).'),
+    'R86': (['C01', 'C07', 'C08', 'C09', 'C19', 'C20', 'C11', 'C12', 'C17'], 'R86: an argument annotated as Iterable / Iterator / file is walked at most once on every path (a second walk of a file or generator finds nothing).'),
 }
 for _r, (_props, _text) in _EXTRA.items():
     for _pid in _props:
